@@ -205,6 +205,18 @@ def run_check(pid: str, fn, tier: str, seed: int, level: str, only_key: str | No
         _write_error_evidence(chk, str(e))
         print(f"ANALYSIS-ERROR property={pid} {e}")
         return 2
+    except Exception as e:
+        if type(e).__name__ in ("Undecidable", "PERaise"):
+            # a value the rule needs could not be decided statically / the extracted code refuses
+            _write_error_evidence(chk, f"{type(e).__name__}: {e}")
+            print(f"ANALYSIS-ERROR property={pid} {type(e).__name__}: {e}")
+            return 2
+        return _internal(chk, pid, e)
+
+
+def _internal(chk, pid, e):
+    try:
+        raise e
     except Exception as e:  # tracebacks must not look like violations
         _write_error_evidence(chk, f"{type(e).__name__}: {e}")
         traceback.print_exc()
